@@ -190,6 +190,10 @@ func createFilesInTar(info *nfpm.Info, tw *tar.Writer) ([]MtreeEntry, int64, err
 		// .MTREE records whole seconds; the tar header must carry the same
 		// instant, not the nearest second archive/tar would round it to
 		modTime := content.ModTime().Truncate(time.Second)
+		if modTime.IsZero() {
+			// archive/tar writes the zero time as the epoch; say the same in .MTREE
+			modTime = time.Unix(0, 0)
+		}
 
 		switch content.Type {
 		case files.TypeDir, files.TypeImplicitDir:
@@ -296,6 +300,9 @@ func defaultStr(s, def string) string {
 }
 
 func createPkginfo(info *nfpm.Info, tw *tar.Writer, totalSize int64) (*MtreeEntry, error) {
+	// one instant, in whole seconds, for builddate, the tar header and the .MTREE line
+	mtime := modtime.Get(info.MTime).Truncate(time.Second)
+
 	if !nameIsValid(info.Name) {
 		return nil, ErrInvalidPkgName
 	}
@@ -331,7 +338,7 @@ func createPkginfo(info *nfpm.Info, tw *tar.Writer, totalSize int64) (*MtreeEntr
 		return nil, err
 	}
 
-	builddate := strconv.FormatInt(modtime.Get(info.MTime).Unix(), 10)
+	builddate := strconv.FormatInt(mtime.Unix(), 10)
 	totalSizeStr := strconv.FormatInt(totalSize, 10)
 
 	err = writeKVPairs(buf, map[string]string{
@@ -395,7 +402,7 @@ func createPkginfo(info *nfpm.Info, tw *tar.Writer, totalSize int64) (*MtreeEntr
 		Mode:     0o644,
 		Name:     ".PKGINFO",
 		Size:     int64(size),
-		ModTime:  modtime.Get(info.MTime),
+		ModTime:  mtime,
 	})
 	if err != nil {
 		return nil, err
@@ -413,7 +420,7 @@ func createPkginfo(info *nfpm.Info, tw *tar.Writer, totalSize int64) (*MtreeEntr
 
 	return &MtreeEntry{
 		Destination: ".PKGINFO",
-		Time:        modtime.Get(info.MTime).Unix(),
+		Time:        mtime.Unix(),
 		Mode:        0o644,
 		Size:        int64(size),
 		Type:        files.TypeFile,
